@@ -45,11 +45,15 @@ pub struct Opts {
 impl Opts {
     pub fn random(rng: &mut Rng) -> Self {
         let order = [InsertionOrderStrategy::Input, InsertionOrderStrategy::Lexicographic, InsertionOrderStrategy::Morton, InsertionOrderStrategy::Hilbert][rng.usize(4)];
-        let dedup = match rng.usize(6) {
+        // 1e-17 and 1e-20 put unit-scale coordinates into the quantised-bucket regime (|c|/t >= 2^53)
+        // and into the regime where the bucket key overflows and the quadratic scan takes over (>= 2^63)
+        let dedup = match rng.usize(8) {
             0 | 1 => DedupPolicy::Off,
             2 => DedupPolicy::Exact,
             3 => DedupPolicy::Epsilon { tolerance: 0.0 },
             4 => DedupPolicy::Epsilon { tolerance: 1e-12 },
+            5 => DedupPolicy::Epsilon { tolerance: 1e-17 },
+            6 => DedupPolicy::Epsilon { tolerance: 1e-20 },
             _ => DedupPolicy::Epsilon { tolerance: 1e-3 },
         };
         let simplex = if rng.bool() { InitialSimplexStrategy::First } else { InitialSimplexStrategy::Balanced };
